@@ -5,11 +5,10 @@ package conc
 
 import (
 	"fmt"
-	"runtime"
-	"strings"
 	"sync"
 	"time"
 
+	"github.com/junioryono/godi/v4/verifh/eng"
 	"github.com/junioryono/godi/v4/verifh/rt"
 )
 
@@ -65,91 +64,13 @@ func (g *Gate) Release() {
 	}
 }
 
-// hangVerdict is returned by awaitOrDiagnose.
-type hangVerdict struct {
-	Done     bool
-	Deadlock bool   // goroutines stuck inside godi in two samples 2 s apart
-	Dump     string // goroutine dump (stuck goroutines only)
-}
+// thin aliases: the hang diagnosis lives in eng (shared with the sequential engines)
+type hangVerdict = eng.HangVerdict
 
-// awaitOrDiagnose waits for done with a generous wall-clock bound. The bound firing is never
-// a verdict by itself: only goroutines that sit in a lock/channel wait with a godi frame on
-// their stack, identically in two samples, are reported as a deadlock; anything else is
-// inconclusive.
 func awaitOrDiagnose(done <-chan struct{}, bound time.Duration) hangVerdict {
-	select {
-	case <-done:
-		return hangVerdict{Done: true}
-	case <-time.After(bound):
-	}
-	first := stuckInGodi()
-	select {
-	case <-done:
-		return hangVerdict{Done: true}
-	case <-time.After(2 * time.Second):
-	}
-	second := stuckInGodi()
-	var both []string
-	for id, blk := range second {
-		if _, ok := first[id]; ok {
-			both = append(both, blk)
-		}
-	}
-	if len(both) > 0 {
-		return hangVerdict{Deadlock: true, Dump: strings.Join(both, "\n\n")}
-	}
-	return hangVerdict{}
+	return eng.AwaitOrDiagnose(done, bound)
 }
 
-func stuckInGodi() map[string]string {
-	buf := make([]byte, 1<<20)
-	n := runtime.Stack(buf, true)
-	out := map[string]string{}
-	for _, blk := range strings.Split(string(buf[:n]), "\n\n") {
-		head, _, _ := strings.Cut(blk, "\n")
-		if !strings.HasPrefix(head, "goroutine ") {
-			continue
-		}
-		waiting := strings.Contains(head, "semacquire") || strings.Contains(head, "sync.Mutex") || strings.Contains(head, "sync.RWMutex") || strings.Contains(head, "chan receive") || strings.Contains(head, "chan send") || strings.Contains(head, "select") || strings.Contains(head, "sync.Cond") || strings.Contains(head, "sync.WaitGroup")
-		if !waiting {
-			continue
-		}
-		godiFrame := false
-		for _, ln := range strings.Split(blk, "\n") {
-			if strings.HasPrefix(ln, "github.com/junioryono/godi/v4.") || strings.HasPrefix(ln, "github.com/junioryono/godi/v4/internal/") {
-				godiFrame = true
-				break
-			}
-		}
-		if !godiFrame {
-			continue
-		}
-		id := strings.Fields(head)[1]
-		if len(blk) > 2500 {
-			blk = blk[:2500] + "\n…"
-		}
-		out[id] = blk
-	}
-	return out
-}
-
-// innermostGodiFn extracts the innermost godi function of a dump block (for signatures).
-func innermostGodiFn(dump string) string {
-	for _, ln := range strings.Split(dump, "\n") {
-		if strings.HasPrefix(ln, "github.com/junioryono/godi/v4.") {
-			fn := strings.TrimPrefix(ln, "github.com/junioryono/godi/v4.")
-			if i := strings.Index(fn, "("); i > 0 && !strings.HasPrefix(fn, "(") {
-				fn = fn[:i]
-			} else if strings.HasPrefix(fn, "(") {
-				// method: (*scope).Close(...)
-				if j := strings.Index(fn[1:], "("); j > 0 {
-					fn = fn[:j+1]
-				}
-			}
-			return fn
-		}
-	}
-	return "unknown"
-}
+func innermostGodiFn(dump string) string { return eng.InnermostGodiFn(dump) }
 
 func fmtPanic(p any) string { return fmt.Sprintf("%v", p) }
